@@ -165,7 +165,8 @@ def find_act(prog, name):
 class C06(Check):
     pid = 'C06'
     level = 'fault_enumeration'
-    rule = ('Generated scopes with a subject task (payload: sleeps/instants/lock wait/queue get/borrow/'
+    rule = ('[also: until(flag) around a block whose exit suspends, cancel() and flag.set() in one activation] '
+            'Generated scopes with a subject task (payload: sleeps/instants/lock wait/queue get/borrow/'
             'nested scope/return/raise), time-only siblings, 0-3 awaiters inside and one outside the scope '
             '(each awaiting 1-3 times, before and after completion), optional program-level cancel(); '
             'plus Task.cancel(token) injected before activation k (quick: 1-6 sampled k per program, '
